@@ -833,7 +833,13 @@ func TestVerifC25(t *testing.T) {
 		{1, []string{"leader 1", "endpoint 0", "entry 5 0 1", "entry 6 0 1", "leader 0", "endpoint 1", "leader 1", "timer"}},
 	}
 	hists := vfScale(60, 1500)
+	tStart := time.Now()
+	budget := time.Duration(vfScale(120, 1200)) * time.Second // time-box: the machine may be shared
 	for i := 0; i < len(directed)+hists; i++ {
+		if i >= len(directed) && time.Since(tStart) > budget {
+			rep.Note("stopped after %d generated histories: time budget of %s used", i-len(directed), budget)
+			break
+		}
 		var ops []string
 		b := 1 + r.Intn(4)
 		tick := time.Hour
